@@ -1,5 +1,6 @@
 import SamVerif.Drive.Common
 import SamVerif.Model.Session
+import SamVerif.Model.SessFlush
 namespace SamVerif.Drive.C01
 open SamVerif SamVerif.Drive
 
@@ -48,9 +49,21 @@ def handle (kind : String) (args : List String) (impl : String) : String :=
     | some n => if impl == s!"replies={n}" then "ok" else s!"SPEC request-read-but-never-answered impl={impl}"
     | none => "bad-op"
   | "c01.held", [nS] =>
-    -- the replies of answered requests reach the client whatever the delay of the node serving a later request
+    -- `Model.SessFlush`: n+1 requests are queued, the first n are answered; the writer runs until it is blocked
+    -- (`Props.C01f.blocked_writer_has_flushed`: nothing finished is left in its buffer), then the last one is answered
     match nS.toNat? with
-    | some n => if impl == s!"early={n} all={n+1}" then "ok" else s!"SPEC finished-replies-held-back-behind-an-unanswered-request impl={impl}"
+    | some n =>
+      let settle (w : SessFlush.W) : SessFlush.W :=
+        (List.range (6 * (n + 2))).foldl (fun (w : SessFlush.W) _ =>
+          match [SessFlush.Label.take, .look, .done, .encode].findSome? (fun l => SessFlush.step w l) with
+          | some w' => w'
+          | none => w) w
+      let w0 : SessFlush.W := (List.range (n + 1)).foldl (fun w i => (SessFlush.step w (.enqueue i)).getD w) {}
+      let w1 := (List.range n).foldl (fun w i => (SessFlush.step w (.complete i)).getD w) w0
+      let w2 := settle w1
+      let w3 := settle ((SessFlush.step w2 (.complete n)).getD w2)
+      let m := s!"early={w2.sent.length} all={w3.sent.length}"
+      if impl == m then "ok" else s!"DIFF model={m} impl={impl} ; SPEC finished-replies-held-back-behind-an-unanswered-request impl={impl}"
     | none => "bad-op"
   | "c01.client", _ =>
     if impl == "mismatches=0 unanswered=0" then "ok" else s!"SPEC reply-paired-with-wrong-request impl={impl}"
